@@ -66,6 +66,13 @@ let () = read_lines_iter (fun line ->
     e := do_write !e (n_of_int (wkind wk)) (n_of_int (int_of_string k));
     quiesce ();
     Printf.printf "rev=%d calls=%s\n" (trev ()) (calls_str ())
+  | "wmany" :: ws ->
+    start ();
+    List.iter (fun a -> match String.split_on_char ':' a with
+      | [wk; k] -> e := do_write !e (n_of_int (wkind wk)) (n_of_int (int_of_string k))
+      | _ -> failwith "wmany") ws;
+    quiesce ();
+    Printf.printf "rev=%d calls=%s\n" (trev ()) (calls_str ())
   | ["sleep"; d] ->
     start ();
     let until = n_of_int (int_of_n !e.e_now + int_of_string d) in
